@@ -29,7 +29,8 @@ ALPHA_T = ["ok", "Tnan", "Tpinf", "Tninf"]
 # finite but extreme temperatures (sentinel-like readings: 9999, -9999, 999.9): finite, so such a day is a COMPLETE day
 ALPHA_EXT = ["ok", "Tnan", "Unan", "Thuge", "Tcold", "T999"]
 ALPHA_T_EXT = ["ok", "Tnan", "Thuge", "Tcold"]
-ALPHABETS = {"daily": ALPHA_DAILY, "T": ALPHA_T, "ext": ALPHA_EXT, "T_ext": ALPHA_T_EXT}
+ALPHA_FEED = ["ok", "Tnan", "Unan", "TUnan", "Thalf"]   # Thalf: exactly half of the day's readings missing (= a day without temperature)
+ALPHABETS = {"daily": ALPHA_DAILY, "T": ALPHA_T, "ext": ALPHA_EXT, "T_ext": ALPHA_T_EXT, "feed": ALPHA_FEED}
 ZONE = "America/Chicago"
 WINDOW_START = 27  # index of the first window day inside the 40-day frame (2021-05-01 + 27 = Fri May 28: weekend + season change inside)
 
@@ -92,6 +93,10 @@ def cases(tier):
             for agg in (None, "monthly", "bimonthly"):
                 for usage in (True, False):
                     out.append({"family": "billing", "model": name, "usage": usage, "pat": list(pat), "pstate": ["ok", "ok"], "agg": agg, "alpha": "T_ext"})
+    # the weather arrives as a half-hourly feed (through from_series): a day without temperature is a day whose 48 readings are NaN
+    for name in ("full_smooth", "split4"):
+        for pat in itertools.product(range(len(ALPHA_FEED)), repeat=3):
+            out.append({"family": "daily", "model": name, "usage": True, "pat": list(pat), "alpha": "feed", "feed": 30})
     # predict() also accepts the BASELINE data classes (in-sample prediction, or a reporting period wrapped in the baseline class)
     for name in ("full_smooth", "split4"):
         for pat in itertools.product(range(len(ALPHA_DAILY)), repeat=3):
@@ -100,6 +105,13 @@ def cases(tier):
         for pstate in (["ok", "ok"], ["nanread", "ok"]):
             for agg in (None, "monthly", "bimonthly"):
                 out.append({"family": "billing", "model": "full", "usage": True, "pat": list(pat), "pstate": pstate, "agg": agg, "cls": "baseline"})
+    # the FIRST billing period without usable consumption (NaN read / off-cycle reads): the first calendar month(s) of the frame hold no
+    # predictable day
+    for name in BILLING_MODELS:
+        for first in ("nanread", "offcycle"):
+            for pat in ([0, 0, 0], [1, 0, 0]):
+                for agg in (None, "monthly", "bimonthly"):
+                    out.append({"family": "billing", "model": name, "usage": True, "pat": pat, "pstate": ["ok", "ok"], "agg": agg, "first": first})
     # billing: T pattern over 3 days straddling a period boundary x state of the two adjoining periods x aggregation
     for name in BILLING_MODELS:
         for pat in itertools.product(range(len(ALPHA_T)), repeat=3):
@@ -160,6 +172,21 @@ def build_daily(case):
                 frame[c] = frame[c].astype(case["dtype"])
             except Exception:
                 pass
+    if case.get("feed"):
+        # the same daily temperatures as a half-hourly feed covering every day completely, except the days of the pattern
+        step = case["feed"]
+        fidx = pd.date_range(idx[0], idx[-1] + pd.Timedelta(days=1), freq=f"{step}min", inclusive="left")
+        day_of = (fidx.tz_localize(None).normalize() - idx[0].tz_localize(None).normalize()).days.to_numpy()
+        tf = T[np.clip(day_of, 0, N - 1)].astype(float)
+        for j, sym_i in enumerate(case["pat"]):
+            if alpha[sym_i] == "Thalf":
+                pos = w0 + j
+                sel = np.flatnonzero(day_of == pos)
+                tf[sel[::2]] = np.nan
+                exp_T_ok[pos] = False
+        feed = pd.Series(tf, index=fidx, name="temperature")
+        data = em.DailyReportingData.from_series(pd.Series(y, index=idx, name="observed"), feed, is_electricity_data=True)
+        return data, idx, exp_T_ok, exp_U_ok
     data = (em.DailyBaselineData if case.get("cls") == "baseline" else em.DailyReportingData)(frame, is_electricity_data=True)
     return data, idx, exp_T_ok, exp_U_ok
 
@@ -188,6 +215,8 @@ def build_billing(case):
     for p in range(5):
         a, b = bounds[p], bounds[p + 1]
         st = "ok"
+        if p == 0 and case.get("first"):
+            st = case["first"]
         if p == 1:
             st = case["pstate"][0]
         if p == 2:
@@ -229,6 +258,16 @@ def run_case(case):
     # what the data object itself carries (the oracle is evaluated on the data object's rows, as the statement is about
     # predict() given the reporting data object)
     T_fin = np.isfinite(df["temperature"].to_numpy(float))
+    if case.get("feed"):
+        # through a sub-daily feed the data class itself decides which days have a temperature: a day the feed leaves without
+        # (enough) readings must not come out of predict() with consumption or a prediction
+        if len(df) != len(T_ok):
+            return {"rejected": "data object does not hold one row per day of the input"}
+        if (T_fin & ~np.asarray(T_ok, bool)).any():
+            k = int(np.flatnonzero(T_fin & ~np.asarray(T_ok, bool))[0])
+            viol.append({"clause": "day_without_temperature_readings_gets_a_temperature", "key": dict(key, feed=case["feed"]),
+                         "detail": f"{df.index[k]}: the feed has at most half of the day's readings, data.df temperature = {df['temperature'].iloc[k]!r} (pattern {case['pat']})"})
+        T_fin = T_fin & np.asarray(T_ok, bool)
     has_obs_col = "observed" in df.columns
     U_has = df["observed"].notna().to_numpy() if has_obs_col else np.zeros(len(df), bool)
     if case["usage"] and not has_obs_col:
@@ -260,6 +299,28 @@ def run_case(case):
             if abs(tot - row_sav) > 1e-9 * scale:
                 viol.append({"clause": "column_sums_biased_aggregated", "key": key,
                              "detail": f"sum(predicted)-sum(observed) of the {case['agg']} frame = {tot!r}, row-wise savings over complete days = {row_sav!r}"})
+        if case["usage"] and "observed" in p.columns:
+            # every aggregated row carries both values or neither (a period without a predictable day shows the empty sums of both)
+            ph, oh = np.isfinite(p["predicted"].to_numpy(float)), np.isfinite(p["observed"].to_numpy(float))
+            if (ph != oh).any():
+                k = int(np.flatnonzero(ph != oh)[0])
+                viol.append({"clause": "aggregated_row_unpaired", "key": key,
+                             "detail": f"{case['agg']} row {p.index[k]}: predicted={p['predicted'].iloc[k]!r} observed={p['observed'].iloc[k]!r}"})
+            # ... and a period holding complete days shows them in BOTH columns: the per-period sums of the complete days of the
+            # un-aggregated frame, placed on the aggregated frame's own periods
+            rule = {"monthly": "MS", "bimonthly": "2MS"}[case["agg"]]
+            d0 = pd0[comp]
+            if len(d0) and len(p):
+                lab = pd.Series(p.index, index=p.index).reindex(d0.index, method="ffill")
+                exp_p = d0["predicted"].groupby(lab.to_numpy()).sum().reindex(p.index).fillna(0.0).to_numpy()
+                exp_o = d0["observed"].groupby(lab.to_numpy()).sum().reindex(p.index).fillna(0.0).to_numpy()
+                gp, go = np.nan_to_num(p["predicted"].to_numpy(float)), np.nan_to_num(p["observed"].to_numpy(float))
+                sc = max(1.0, float(np.abs(exp_p).max()), float(np.abs(exp_o).max()))
+                if (np.abs(gp - exp_p) > 1e-9 * sc).any() or (np.abs(go - exp_o) > 1e-9 * sc).any():
+                    k = int(np.flatnonzero((np.abs(gp - exp_p) > 1e-9 * sc) | (np.abs(go - exp_o) > 1e-9 * sc))[0])
+                    viol.append({"clause": "aggregated_period_not_the_sum_of_its_complete_days", "key": key,
+                                 "detail": f"{case['agg']} row {p.index[k]}: predicted {gp[k]!r} observed {go[k]!r}; complete days of that period sum to "
+                                           f"{exp_p[k]!r} / {exp_o[k]!r}"})
         return {"behaviour": ["agg", case["agg"], len(p), len(viol)], "violations": viol, "stats": {"rows": int(len(p))}}
     if not p.index.equals(df.index):
         viol.append({"clause": "rows_changed", "key": key, "detail": f"{len(p)} rows returned for {len(df)} input rows"})
